@@ -249,3 +249,37 @@ Proof.
       destruct (N.ltb_spec 253 (req_size req)); try lia; reflexivity. }
   rewrite He. rewrite send_encode_error by exact Hbp. cbn. auto.
 Qed.
+
+(* ---- disconnect whose future is dropped while the shutdown is pending ---- *)
+Lemma shutdown_bg_none q : shutdown_bg q None = shutdown q.
+Proof. induction q as [|e q IH]; [reflexivity|]. destruct e as [|k|]; cbn [shutdown_bg shutdown spend]; [reflexivity|destruct k; reflexivity|exact IH]. Qed.
+
+Theorem disconnect_bg_none st : disconnect_bg st None = disconnect st.
+Proof. unfold disconnect_bg, disconnect. rewrite shutdown_bg_none. reflexivity. Qed.
+
+(* however the disconnect future ends -- completed, failed, or dropped while the transport's shutdown was still pending --
+   the client is inert afterwards, the write half and the read queue are untouched, and at most one shutdown was completed *)
+Theorem disconnect_bg_inert st bg :
+  framed (snd (disconnect_bg st bg)) = false
+  /\ wio_ (snd (disconnect_bg st bg)) = wio_ st /\ rq (snd (disconnect_bg st bg)) = rq st
+  /\ (shutdowns (snd (disconnect_bg st bg)) = shutdowns st \/ shutdowns (snd (disconnect_bg st bg)) = shutdowns st + 1).
+Proof.
+  unfold disconnect_bg. destruct (framed st) eqn:Hf; cbn [negb].
+  - destruct (shutdown_bg (sq st) bg) as [[r q] dn]. cbn [snd framed wio_ rq shutdowns]. repeat split. destruct dn; auto.
+  - cbn [snd]. repeat split; auto.
+Qed.
+
+(* an abandoned disconnect completed no shutdown and reports nothing but "still waiting" *)
+Theorem disconnect_bg_abandoned st bg r st' : framed st = true -> disconnect_bg st bg = (r, st') -> r = DRWait ->
+  shutdowns st' = shutdowns st.
+Proof.
+  unfold disconnect_bg. intros Hf. rewrite Hf. cbn [negb]. destruct (shutdown_bg (sq st) bg) as [[r0 q] dn] eqn:Hs.
+  intros H Hr. injection H as <- <-. subst r0. cbn [shutdowns].
+  assert (dn = false); [|subst dn; reflexivity].
+  clear Hf. revert bg Hs. generalize (sq st). intros l. induction l as [|e l IH]; intros bg Hs; cbn [shutdown_bg] in Hs.
+  - discriminate.
+  - destruct e as [|k|].
+    + discriminate.
+    + destruct k; discriminate.
+    + destruct (spend bg) as [bg'|]; [eapply IH; eauto|injection Hs as _ <-; reflexivity].
+Qed.
